@@ -53,6 +53,26 @@ pub struct Worker {
     child: Option<(Child, ChildStdin, Receiver<String>)>,
 }
 
+static PLAIN: std::sync::atomic::AtomicBool = std::sync::atomic::AtomicBool::new(false);
+
+/// Selects the pipeline binary for workers spawned from now on: the default one (debug assertions
+/// and overflow checks on) or the `plain` build without them.
+pub fn use_plain_build(on: bool) {
+    PLAIN.store(on, std::sync::atomic::Ordering::SeqCst);
+}
+
+/// Builds the pipeline harness with profile `plain` (no debug assertions, no overflow checks).
+pub fn ensure_plain_built() {
+    let out = crate::util::cargo_rd(&["build", "-p", "pipeline", "--quiet", "--profile", "plain"])
+        .stdout(Stdio::piped())
+        .stderr(Stdio::piped())
+        .output()
+        .unwrap_or_else(|e| infra(&format!("cannot run cargo: {}", e)));
+    if !out.status.success() {
+        infra(&format!("cannot build the pipeline harness with profile plain:\n{}", String::from_utf8_lossy(&out.stderr)));
+    }
+}
+
 pub fn ensure_built() {
     if let Err(e) = build_rd("pipeline", true) {
         infra(&format!(
@@ -68,7 +88,11 @@ impl Worker {
     }
 
     fn spawn(&mut self) {
-        let bin = rd_bin("pipeline", true);
+        let bin = if PLAIN.load(std::sync::atomic::Ordering::SeqCst) {
+            std::path::Path::new(crate::util::RD).join("target/plain/pipeline")
+        } else {
+            rd_bin("pipeline", true)
+        };
         // 6 GB address-space cap: a runaway expansion must not take the machine down.
         let mut child = Command::new("sh")
             .arg("-c")
